@@ -67,6 +67,7 @@ type inputIter interface {
 
 type jsonInputIter struct {
 	next   func() (any, error)
+	pos    func() int64
 	ir     *inputReader
 	fname  string
 	offset int64
@@ -79,7 +80,7 @@ func newJSONInputIter(r io.Reader, fname string) inputIter {
 	dec := json.NewDecoder(ir)
 	dec.UseNumber()
 	next := func() (v any, err error) { err = dec.Decode(&v); return }
-	return &jsonInputIter{next: next, ir: ir, fname: fname}
+	return &jsonInputIter{next: next, pos: dec.InputOffset, ir: ir, fname: fname}
 }
 
 func (i *jsonInputIter) Next() (any, bool) {
@@ -106,9 +107,10 @@ func (i *jsonInputIter) Next() (any, bool) {
 		return i.err, true
 	}
 	if buf := i.ir.buf; buf != nil && buf.Len() >= 16*1024 {
-		i.offset += int64(buf.Len())
-		i.line += bytes.Count(buf.Bytes(), []byte{'\n'})
-		buf.Reset()
+		// discard what the decoder has consumed, keep what it has read ahead
+		n := int(i.pos() - i.offset)
+		i.line += bytes.Count(buf.Next(n), []byte{'\n'})
+		i.offset += int64(n)
 	}
 	return v, true
 }
@@ -126,7 +128,7 @@ func newStreamInputIter(r io.Reader, fname string) inputIter {
 	ir := newInputReader(r)
 	dec := json.NewDecoder(ir)
 	dec.UseNumber()
-	return &jsonInputIter{next: newJSONStream(dec).next, ir: ir, fname: fname}
+	return &jsonInputIter{next: newJSONStream(dec).next, pos: dec.InputOffset, ir: ir, fname: fname}
 }
 
 type nullInputIter struct {
